@@ -10,7 +10,7 @@ ID = "C18"
 LEVEL = "exploration"
 ENGINE = "E1"
 TECHNIQUE = "bounded exhaustive enumeration of ranges x spellings x listings mixing direct/indirect branches and other instructions on the real code; oracle computed from the decoded stream and the option-less run"
-RULE = ("ranges: EVERY pair min<=max over a 6-value grid (incl. min=max, adjacent values, 1-digit and 8-digit values) x 4 "
+RULE = ("ranges: EVERY pair min<=max over an 8-value grid (incl. min=max, adjacent values, 1-, 8- and 16-digit values up to 2^63-1 and kernel-style 0xffffffff81000000) x 4 "
         "spellings (0x/no 0x, leading zeros, upper-case digits) of min and max; listings: EVERY sequence of length 1..2 "
         "over an alphabet built per range: direct call/jmp with target in {min-1,min,min+1,max-1,max,max+1,far} (targets "
         "printed as objdump does, and with 0x), indirect call/jmp (*%rax, *%r9, *%r10, *%r15, *0x10(%rip), *(%rax), absolute-slot *0x<min>, *0x<max>), conditional jumps in/out "
@@ -26,7 +26,7 @@ LEVEL_TEXT = ("All ranges of the grid x spellings x all listings up to the bound
               "compared instruction by instruction with the specification. Exhaustive within bounds.")
 LEVEL_NOTE = "Trusted: the 15-line tagging specification in this module; mc/refmodel.decode."
 
-GRID = [0x9, 0x10, 0x401000, 0x401005, 0x401006, 0xfffffff0]
+GRID = [0x9, 0x10, 0x401000, 0x401005, 0x401006, 0xfffffff0, 0xffffffff81000000, 0x7fffffffffffffff]
 
 
 def bounds(tier):
